@@ -408,6 +408,7 @@ assert_eq!(s, "<doc>\u{1E0D}\u{0307}</doc>");
             |name| suppress_elements.contains(&name),
             |_name| false,
         );
+        pretty.seed_context(node);
         outputs.map(move |(node, output)| {
             let (indentation, newline) = pretty.prettify(node, &output);
             let rendered = serializer.render_output(node, &output).unwrap();
